@@ -96,7 +96,7 @@ def jobs(tier, seed):
         elig={'0': 'ct', '2': 'ctx', '3': 'cx'})))
   # shared data object: another search object is used in between
   for m in methods:
-    for h in ['prior', 'interleave']:
+    for h in ['prior', 'interleave', 'interleave_small']:
       for i, el in enumerate(CURATED4[:5]):
         name = 'hist-%s-P2-%s-%d' % (h, m, i)
         out.append(dict(func='job', name=name, kwargs=dict(
